@@ -14,16 +14,16 @@ import (
 )
 
 type CEnv struct {
-	w     *World
-	pkg   *packages.Package
-	vars  map[string]Term
-	old   *CEnv
-	depth int
-	nq    *int
-	lookup func(string) (Term, bool)
+	w        *World
+	pkg      *packages.Package
+	vars     map[string]Term
+	old      *CEnv
+	depth    int
+	nq       *int
+	lookup   func(string) (Term, bool)
 	globalOf func(*types.Var) (Term, bool)
-	pre    *CEnv
-	iter   *CEnv
+	pre      *CEnv
+	iter     *CEnv
 }
 
 func (w *World) newEnv(pkg *packages.Package) *CEnv {
@@ -436,6 +436,30 @@ func (e *CEnv) call(n *CCall) Term {
 				cfail("%v", err)
 			}
 			return mkBool("(and ((_ is any_other) " + v.S + ") (= (any_oty " + v.S + ") " + strconv.Itoa(e.reg().TypeID(t)) + "))")
+		case "jsnum":
+			return mkBool("(js_isnum " + e.eval(n.Args[0]).S + ")")
+		case "jsnumval":
+			return mkMath("(js_numval " + e.eval(n.Args[0]).S + ")")
+		case "jssafe":
+			return mkBool("(js_strsafe " + e.eval(n.Args[0]).S + ")")
+		case "jslit":
+			return mkBool("(js_strlit " + e.eval(n.Args[0]).S + ")")
+		case "jsbyteslit":
+			return mkBool("(js_byteslit " + e.autoDeref(e.eval(n.Args[0])).S + ")")
+		case "jscanon":
+			return mkBool("(js_canon " + e.eval(n.Args[0]).S + ")")
+		case "jstop":
+			return mkMath("(js_top " + e.eval(n.Args[0]).S + ")")
+		case "jsset":
+			j := e.eval(n.Args[0])
+			return Term{S: "(js_set " + j.S + " " + e.eval(n.Args[1]).S + ")", T: j.T}
+		case "jspush":
+			j := e.eval(n.Args[0])
+			return Term{S: "(js_push " + j.S + " " + e.eval(n.Args[1]).S + " " + e.eval(n.Args[2]).S + ")", T: j.T}
+		case "strcat":
+			a, b := e.eval(n.Args[0]), e.eval(n.Args[1])
+			e.w.declareUninterp(&Uninterp{Name: "strcat", Params: []ParamDecl{{"a", types.Typ[types.String]}, {"b", types.Typ[types.String]}}, Result: types.Typ[types.String]})
+			return Term{S: "(u_strcat " + a.S + " " + b.S + ")", T: types.Typ[types.String]}
 		case "val": // val(p): the value a pointer points to
 			v := e.eval(n.Args[0])
 			if _, ok := v.T.Underlying().(*types.Pointer); !ok {
